@@ -152,6 +152,9 @@ class ndarray:
             raise IndexError('too many indices for array: array is %d-dimensional' % self.ndim)
         return key
     def __getitem__(self, key):
+        if isinstance(key, SBV) and self.ndim == 1 and getattr(self, 'concrete', None) is not None and TABLE_HOOK[0] is not None:
+            r = TABLE_HOOK[0](self.concrete, self.st, self._sidx((key,)))
+            if r is not None: return r
         if isinstance(key, ndarray) and key.dtype.kind == 'b' and key.ndim == self.ndim:
             return _mask_select(self, key)
         key = self._expand_key(key)
